@@ -31,7 +31,7 @@ TAGV = {0: 'Cell', 1: 'RawCell', 2: 'Name'}
 
 
 def norm(t):
-    return re.sub(r'<[A-Za-z]+:[^>]*>', '', t).replace('gdstk::', '')
+    return re.sub(r'<[A-Za-z]+:(?!:)[^>]*>', '', t).replace('gdstk::', '')
 
 
 def ref_loops(ctx, f, label):
